@@ -335,6 +335,33 @@ def Service.fromString {α : Type} (L : IPLib α) (cfg : Cfg) : PyVal α → Exc
 def Service.toStr {α : Type} (L : IPLib α) (s : Service α) : Str :=
   s.protocol ++ schemeSep ++ s.address.toStr L
 
+/-! ## pinned-tree variants of the two functions repaired by fixes/F20 and F21 -/
+
+/-- what the pinned `validate_port` returns: the argument itself, so `True` stays a `bool` -/
+inductive PortObj where
+  | int (n : Int)
+  | bool (b : Bool)
+  deriving DecidableEq, Repr
+
+def validatePortPinned {α : Type} (cfg : Cfg) : PyVal α → Except PyExc PortObj
+  | .bool b => match portRange cfg (if b then 1 else 0) with
+    | .ok _ => .ok (.bool b)
+    | .error e => .error e
+  | v => match validatePort cfg v with
+    | .ok n => .ok (.int n)
+    | .error e => .error e
+
+/-- `f'{port}'` -/
+def PortObj.toStr : PortObj → Str
+  | .int n => showInt n
+  | .bool true => [84, 114, 117, 101]
+  | .bool false => [70, 97, 108, 115, 101]
+
+/-- pinned `NetAddress.from_string` (uses `find`) -/
+def NetAddr.fromStringPinned {α : Type} (L : IPLib α) (cfg : Cfg) : PyVal α → Except PyExc (NetAddr α)
+  | .str s => mkNetAddress L cfg (.str (splitAddressPinned s).1) (.str (splitAddressPinned s).2)
+  | _ => .error .typeError
+
 /-! ## the two configurations -/
 
 def clsLetter : Cls := [(65, 90), (97, 122)]
